@@ -17,14 +17,14 @@ func c18(args []string) int {
 	ss := newShardSet(run)
 	hpackInts(run, ss)
 	hpackHuffman(run, ss)
-	hpackSessions(run, ss, "mosn", run.N(120, 500))
-	hpackSessions(run, ss, "xnet", run.N(80, 350))
-	hpackSessionsGen(run, ss, "mosn", run.N(40, 200), "-exact-fill", genExactFillSession)
-	hpackSessionsGen(run, ss, "xnet", run.N(40, 200), "-exact-fill", genExactFillSession)
-	hpackReprSessions(run, ss, run.N(150, 700), false)
-	hpackReprSessions(run, ss, run.N(60, 300), true)
-	hpackKnobSessions(run, ss, run.N(60, 300))
-	framesStreams(run, ss, "c18", true, run.N(60, 600), false)
+	hpackSessions(run, ss, "mosn", run.N(70, 500))
+	hpackSessions(run, ss, "xnet", run.N(50, 350))
+	hpackSessionsGen(run, ss, "mosn", run.N(30, 200), "-exact-fill", genExactFillSession)
+	hpackSessionsGen(run, ss, "xnet", run.N(30, 200), "-exact-fill", genExactFillSession)
+	hpackReprSessions(run, ss, run.N(90, 700), false)
+	hpackReprSessions(run, ss, run.N(40, 300), true)
+	hpackKnobSessions(run, ss, run.N(40, 300))
+	framesStreams(run, ss, "c18", true, run.N(40, 600), false)
 	framesWriters(run, ss, run.N(40, 400))
 	framesPreface(run, ss)
 	connHeaders(run, run.N(40, 400))
